@@ -157,7 +157,9 @@ def judge(d):
             # only when no other molecule overlaps this block
             others = ref - reference(vol, tmpl, pos[i], R[i], order)
             blk = tuple(slice(s, s + n) for s, n in zip(start, shape))
-            if float(np.abs(others[blk]).max()) > 1e-9:
+            # (one voxel of clearance: with order 0 a neighbour's outermost voxel may round into the block or out of it)
+            wide = tuple(slice(max(s - 1, 0), s + n + 1) for s, n in zip(start, shape))
+            if float(np.abs(others[wide]).max()) > 1e-9:
                 continue
             e = float(np.abs(tomo[blk] - tmpl).max())
             if not e <= 1e-4 * mx:
